@@ -2,8 +2,63 @@
 from . import flow
 
 
+_CASEMAP_CACHE = {}
+
+
+def case_map(sw):
+    """node id -> list of case names for every node in the body of switch `sw`, following C semantics:
+    statements after a label belong to it until a break/return/goto/continue; fallthrough accumulates."""
+    key = (id(sw.fn), sw.id)
+    if key in _CASEMAP_CACHE:
+        return _CASEMAP_CACHE[key]
+    out = {}
+    body = sw.kids[1] if len(sw.kids) > 1 else None
+    current = []
+    terminated = True
+    stmts = list(body.kids) if body is not None and body.k == "compound" else ([body] if body is not None else [])
+    for st in stmts:
+        s = st
+        labels = []
+        while s is not None and s.k in ("case", "default"):
+            labels.append(case_name(s))
+            nxt = s.kids[-1] if s.kids else None
+            if s.k == "case" and len(s.kids) < 2:
+                nxt = None
+            s = nxt
+        if labels:
+            if terminated:
+                current = []
+            current = current + labels
+            terminated = False
+        if s is None:
+            continue
+        for x in s.walk():
+            if x.k == "switch" and x is not s:
+                pass
+            out[x.id] = list(current)
+        # does this statement end the arm?
+        last = s
+        if last.k == "compound" and last.kids:
+            last = last.kids[-1]
+        if last.k in ("break", "return", "goto", "continue") or \
+                (last.k == "call" and last.fn.tu.decls.get(last.callee or "", {}).get("noreturn")):
+            terminated = True
+    _CASEMAP_CACHE[key] = out
+    return out
+
+
 def enclosing_cases(node):
-    """Names (enumerators / values / 'default') of the innermost case labels a node sits under."""
+    """Names (enumerators / values / 'default') of the case labels whose arm a node belongs to."""
+    for a in node.ancestors():
+        if a.k == "switch":
+            m = case_map(a)
+            if node.id in m:
+                return list(m[node.id])
+            break
+    return _enclosing_cases_syntactic(node)
+
+
+def _enclosing_cases_syntactic(node):
     out = []
     for a in node.ancestors():
         if a.k in ("case", "default"):
